@@ -141,8 +141,8 @@ var checkSpecs = map[string]*checkSpec{
 		}, kcpStateAssumptions...),
 		stubs: commonStubs,
 		bounds: map[string]string{
-			"quick":    "Input of one arbitrary segment (cmd in PUSH/ACK/WASK/WINS, symbolic fields, payload 0..2, optional trailing garbage) from 2 receive and 2 send shapes; flush FULL/ACKONLY from 2 shapes (cc off) and FULL from 2 shapes with cc on (MSS 4); Check+Update from 2 shapes; Recv+Send from 3 shapes: return values equal (Check: shifted), post-states and every emitted datagram (decoded independently) related by the same shifts",
-			"thorough": "full shape product",
+			"quick":    "Input of one arbitrary segment with symbolic fields, payload 0..1: PUSH/WASK against one queued + one buffered segment, WINS against two in-flight segments, ACK (exact ack, fast-ack counting, RTT sample, una, triggered flush) against one in-flight segment, both packet types; flush FULL/ACKONLY from 2 shapes (cc off) and FULL from 2 shapes with cc on (MSS 4); Check+Update from 2 shapes; Recv+Send from 3 shapes: return values equal (Check: shifted), post-states and every emitted datagram (decoded independently) related by the same shifts",
+			"thorough": "each family extended by its two-element variants, trailing garbage, ackNoDelay",
 		},
 		outside: "states in which a never-transmitted segment is named by an ACK (forged); shapes beyond 2 per queue",
 	},
